@@ -53,6 +53,9 @@ type apiServer struct {
 	refusesStatus map[string]bool // objects whose status patches the server refuses as invalid
 }
 
+// count: the counters are also written by the calls of the provider's goroutines
+func (a *apiServer) count(k string) { a.mu.Lock(); a.stats[k]++; a.mu.Unlock() }
+
 type simWatch struct {
 	ch      chan watch.Event
 	stopped chan struct{}
@@ -492,7 +495,7 @@ func k8sProvSim(r *simcore.Run) {
 			}
 			time.Sleep(100 * time.Millisecond) // let the status patch reporting the failure reach the API server
 			rec.Rejecting = false
-			api.stats["fault:version-refused-by-processor"]++
+			api.count("fault:version-refused-by-processor")
 			if followUp == 0 {
 				api.del(n)
 				delete(classOf, n)
@@ -509,7 +512,7 @@ func k8sProvSim(r *simcore.Run) {
 			}
 		case 1: // watch stream closed, client resumes from its last resource version
 			api.disconnect(false)
-			api.stats["fault:watch-closed"]++
+			api.count("fault:watch-closed")
 			r.Logf("step %d: watch stream closed", step)
 			for i := 0; i < s.Draw(3, "changes"); i++ {
 				mutate(fmt.Sprintf("step %d (while reconnecting)", step))
@@ -521,7 +524,7 @@ func k8sProvSim(r *simcore.Run) {
 				mutate(fmt.Sprintf("step %d (during the gap)", step))
 			}
 			api.disconnect(true)
-			api.stats["fault:watch-gap-with-compaction"]++
+			api.count("fault:watch-gap-with-compaction")
 			r.Logf("step %d: events of the gap are lost (410 Gone on resume)", step)
 			nontrivial = true
 		}
@@ -529,9 +532,11 @@ func k8sProvSim(r *simcore.Run) {
 			return
 		}
 	}
+	api.mu.Lock()
 	for k, v := range api.stats {
 		r.Count(k, v)
 	}
+	api.mu.Unlock()
 	r.Count("processor-calls", rec.Calls)
 	if nontrivial {
 		r.Distinct("nontrivial", r.Trace())
